@@ -49,6 +49,9 @@ CHAIN_REPL = {"name": "chain-replicas", "kind": "replicas", "files": CHAIN, "mod
               "quick": dict(cfg="mc/MBT_Chain_quick.cfg", histories=40, depth=14, repeat=3),
               "thorough": dict(cfg="mc/MBT_Chain_thorough.cfg", histories=300, depth=20, repeat=10, timeout=3000, heap="10g", workers=16)}
 
+UPG = ["Upgrade.tla", "mc/MBT_Upgrade.tla"]
+UPG_MBT = mbt("upgrade", UPG, "MBT_Upgrade.tla", "upgrade", "mc/MBT_Upgrade_quick.cfg", "mc/MBT_Upgrade_thorough.cfg", qopts={"walks": 0}, topts={"walks": 0})
+
 TRUST = ["TLC 1.8.0 and the TLA+ CommunityModules Json module", "the Go harness projection functions (harness/*)",
          "cosmos-sdk bank/auth keepers as the ground truth for balances and accounts"]
 
@@ -66,6 +69,8 @@ PROPS = {
     "C11": {"level": "model_checking", "stages": [CHAIN_REPL], "assumptions": CHAIN_ASSUME + ["Tendermint and IAVL are trusted; replicas are application instances fed the same ABCI calls"]},
     "C12": {"level": "model_checking", "stages": [CHAIN_MBT, MINTER_SCHED, DIST_CUR, VEST_ACCTS, SIG_MBT], "assumptions": CHAIN_ASSUME},
     "C13": {"level": "model_checking", "stages": [MINTER_UPD, DIST_UPD, VEST_ACCTS, CHAIN_MBT], "assumptions": CHAIN_ASSUME},
+    "C16": {"level": "model_checking", "stages": [UPG_MBT],
+            "assumptions": TRUST + ["the upgrade is executed as its parts (the three Migrator.Migrate2to3, v120.UpdateVestingAccountTraces, ModifyVestingPoolsState, ModifyVestingAccountsState) on a store filled with legacy-format records; x/upgrade plan handling and the ICA module initialisation are not driven"]},
     "C18": {"level": "model_checking", "stages": [MINTER_SCHED, DIST_CUR, VEST_POOLS], "assumptions": TRUST},
     "C19": {"level": "model_checking", "stages": [MINTER_MC, MINTER_SCHED, MINTER_UPD], "assumptions": TRUST + ["inflation is compared with the model value within 2/P (the model truncates the same rational at 1/P twice)"]},
     "C05": {"level": "model_checking", "stages": [VEST_MC, VEST_POOLS], "assumptions": VEST_ASSUME},
